@@ -7,6 +7,7 @@ require (
 	github.com/aws/aws-sdk-go v1.40.12
 	github.com/aws/aws-sdk-go-v2 v1.25.0
 	github.com/aws/aws-sdk-go-v2/service/dynamodb v1.29.0
+	github.com/aws/smithy-go v1.20.0
 	github.com/truora/minidyn v0.0.0
 )
 
@@ -15,7 +16,6 @@ require (
 	github.com/aws/aws-sdk-go-v2/internal/endpoints/v2 v2.6.0 // indirect
 	github.com/aws/aws-sdk-go-v2/service/internal/accept-encoding v1.11.0 // indirect
 	github.com/aws/aws-sdk-go-v2/service/internal/endpoint-discovery v1.9.0 // indirect
-	github.com/aws/smithy-go v1.20.0 // indirect
 	github.com/jmespath/go-jmespath v0.4.0 // indirect
 )
 
